@@ -284,4 +284,11 @@ def dispatchPy (restoreC : Bool) (p : Proc) (taskEnv : List (Nat × Nat)) (pl : 
 def dispatchProc (out err : List Nat) (exitCode : Nat) : Report :=
   { out := out, err := err, ret := exitCode, val := none, exc := none }
 
+/-- `_dispatch_proc` / `_dispatch_shell`: the child is started with a COPY of the worker's base task
+    environment updated by the request's own `environment`; the base is not touched.  A stream of
+    such requests on one worker: what each child sees -/
+def procEnvs (base : Env) (reqs : List (List (Nat × Nat))) : List Env := reqs.map (fun r => setMany base r)
+
+def envGet (e : Env) (k : Nat) : Option Nat := (e.find? (fun x => x.1 = k)).map (·.2)
+
 end RPVerif.Raptor
